@@ -17,7 +17,8 @@ LEVEL_TEXT = ("TLC enumerates every (size 1..7, source <= 5, destination prefix 
               "address (different content, errno preset). "
               "Every case is executed at each run-time debug level of the specification's DebugLevels (0, 1, 3, 5) with identical results required; "
               "extreme integer arguments (INT_MAX, INT_MAX-k, INT_MIN, INT_MIN+k, 2^30, 2^15/2^16 neighbours) of substr and of the declared copy size "
-              "are crossed with small non-zero values of the other parameters.")
+              "are crossed with small non-zero values of the other parameters; safe_strncpy with source and destination in the same buffer (dst == src, "
+              "src = dst + k) is a family of the model.")
 LEVEL_NOTE = ("Exhaustive only within those bounds and alphabets. safe_strncat with a destination that holds no NUL within size bytes is run "
               "for memory safety only (value not claimed); safe_str is claimed for n <= strlen. condense_whitespace keeping one leading blank "
               "is taken as the as-built convention. Memory safety = no ASan report and intact guard zones on what was executed. Trusted: TLC, "
